@@ -5,3 +5,4 @@ import SJ.Props.Typed
 #print axioms SJ.Props.C13.c13_write_prefix
 #print axioms SJ.Props.C13.c13_write_is_prefix
 #print axioms SJ.Props.Typed.c13_typed_fault
+#print axioms SJ.Props.C13.c13_buffers_utf8
